@@ -28,6 +28,9 @@ sources.  The *module side* is an environment with identical options whose loade
                     ``zip`` and ``zip2``), ModuleLoader([target1, target2])
     choice_mod_first   only the masked subset is precompiled; ChoiceLoader([ModuleLoader, DictLoader(all)])
     choice_src_first   everything is precompiled; ChoiceLoader([DictLoader(masked subset), ModuleLoader])
+    override        a second target holds overriding versions ("OVR:" + source) of the masked subset and is listed first:
+                    ModuleLoader([override target, default target]); its path sorts before or after the default target's;
+                    the source side is ChoiceLoader([DictLoader(overrides), DictLoader(all)])
 
 For every template of the set and both data assignments the two sides must give the same text or the
 same exception class (``TemplateNotFound`` for a deliberately missing include, ``UndefinedError``, ... -
@@ -63,7 +66,7 @@ RULE = (
     "namespaces, trans blocks, do/loopcontrols tags, self/super); template names optionally renamed to path-like, "
     "non-ASCII, brace and blank containing names; compiled with compile_templates(zip=None|'stored'|'deflated') into a "
     "scratch target and loaded through ModuleLoader in 8 loader forms (str / Path / list / list with an empty first "
-    "directory / two targets split by filter_func / ChoiceLoader before or after a source loader with a partial "
+    "directory / two targets split by filter_func / an overriding target listed before the default one / ChoiceLoader before or after a source loader with a partial "
     "compile); sync and enable_async; environment options drawn from autoescape (bool / by-name callable), sandboxed, "
     "immutable sandbox, optimized=False, trim/lstrip blocks, finalize (None->'' / type-sensitive / pass_environment, with "
     "snippets printing none, float, int, bool and container constants), cache_size=0, Debug/Chainable/Strict undefined, "
@@ -83,7 +86,7 @@ ASSUMPTIONS = [
     "left out on both sides",
 ]
 
-FORMS = ("path", "pathlike", "list1", "list_empty_first", "split", "choice_mod_first", "choice_src_first")
+FORMS = ("path", "pathlike", "list1", "list_empty_first", "split", "choice_mod_first", "choice_src_first", "override")
 FLAGS = ("autoescape", "autoescape_fn", "sandbox", "immutable", "unoptimized", "ws", "finalize", "nocache",
          "debug_undefined", "chainable_undefined", "strict_undefined", "i18n", "no_auto_reload", "finalize_typed", "finalize_env")
 ZIPS = (None, "stored", "deflated")
@@ -117,8 +120,9 @@ def _wrapper_source(prog, pname, rename=None):
     parts.append("{%% include '%s' without context %%}|" % pname)
     for m in macros:
         parts.append("{%% if P.%s is defined %%}{{ P.%s() }}{%% endif %%}|" % (m, m))
-    if macros:
-        parts.append("{%% from '%s' import %s as mm with context %%}{{ mm() }}|" % (pname, macros[0]))
+    public = [m for m in macros if not m.startswith("_")]  # importing an underscore name is a template error
+    if public:
+        parts.append("{%% from '%s' import %s as mm with context %%}{{ mm() }}|" % (pname, public[0]))
     return "".join(parts)
 
 
@@ -412,7 +416,7 @@ def check_case(case):
     form, zip_mode, zip2 = cfg["form"], cfg.get("zip"), cfg.get("zip2")
     mask = cfg.get("mask", 0)
     subset = [n for i, n in enumerate(names) if (mask >> i) & 1]
-    if form in ("split", "choice_mod_first", "choice_src_first") and not subset:
+    if form in ("split", "choice_mod_first", "choice_src_first", "override") and not subset:
         subset = names[:1]
     if form == "choice_src_first" and len(subset) == len(names):
         subset = subset[1:]  # leave something for the module loader
@@ -459,7 +463,14 @@ def check_case(case):
                 _compile(compile_env, target, zm, names, selected, broken)
 
         ref_sources = {n: sources[n] for n in good}
-        src_env = make_env(jinja2.DictLoader(dict(ref_sources)), cfg, globs)
+        ovr_sources = {n: "OVR:" + sources[n] for n in subset if n in ref_sources} if form == "override" else {}
+
+        def ref_loader():
+            if form == "override":  # the source counterpart of two module targets searched in the given order
+                return jinja2.ChoiceLoader([jinja2.DictLoader(dict(ovr_sources)), jinja2.DictLoader(dict(ref_sources))])
+            return jinja2.DictLoader(dict(ref_sources))
+
+        src_env = make_env(ref_loader(), cfg, globs)
         ML = _counting_loader_class(state)
         t1 = _target(work, 1, zip_mode)
         precompiled = set(good)
@@ -470,6 +481,19 @@ def check_case(case):
             build(t2, zip2, rest)
             loader = ML([t1, pathlib.Path(t2)])
             labels.append("zip2_%s" % zip2)
+        elif form == "override":
+            # a second target with overriding versions of some templates, listed FIRST; its path sorts before or after the
+            # default target's path (mask bit 0)
+            build(t1, zip_mode, names)
+            t_ovr = _target(work, 9 if mask & 1 else 0, zip2)
+            if ovr_sources:
+                _compile(make_env(jinja2.DictLoader(dict(ovr_sources)), cfg, globs), t_ovr, zip2, sorted(ovr_sources), sorted(ovr_sources), [])
+            elif not zip2:
+                os.makedirs(t_ovr)
+            else:
+                zipfile.ZipFile(t_ovr, "w").close()
+            loader = ML([t_ovr, pathlib.Path(t1)])
+            labels.append("override_sorts_%s" % ("last" if mask & 1 else "first"))
         elif form == "choice_mod_first":
             build(t1, zip_mode, subset)
             precompiled = set(subset) - set(broken)
@@ -503,7 +527,7 @@ def check_case(case):
             cfg_b = dict(cfg, flags=flags_b)
             globs_b = {k: (v + "-B" if isinstance(v, str) else v) for k, v in globs.items()}
             globs_b["zz_only_b"] = "B"
-            src_env_b = make_env(jinja2.DictLoader(dict(ref_sources)), cfg_b, globs_b)
+            src_env_b = make_env(ref_loader(), cfg_b, globs_b)
             mod_env_b = make_env(loader, cfg_b, globs_b, state)
             for name in names:
                 for e in (mod_env, mod_env_b):
@@ -691,7 +715,7 @@ def _strategy(tier_sizes):
         form = draw(st.sampled_from(FORMS))
         case["cfg"] = {
             "zip": draw(st.sampled_from(ZIPS)), "zip2": draw(st.sampled_from(ZIPS)), "form": form,
-            "mask": draw(st.integers(0, 2 ** len(all_names) - 1)) if form in ("split", "choice_mod_first", "choice_src_first") else 0,
+            "mask": draw(st.integers(0, 2 ** len(all_names) - 1)) if form in ("split", "choice_mod_first", "choice_src_first", "override") else 0,
             "async": draw(st.integers(0, 2)) == 0, "flags": flags,
             "shared": 40 <= draw(st.integers(0, 99)) < 62,  # (Hypothesis favours the ends of an integer range)
             "rebuild": None,
@@ -771,7 +795,7 @@ def run_shard(spec, ctx):
 FLOORS = {
     "xref": 0.5, "zip_None": 0.15, "zip_stored": 0.15, "zip_deflated": 0.15, "async": 0.15, "kind_inherit": 0.15,
     "kind_modules": 0.15, "with_prog": 0.15, "with_raw": 0.3, "renamed": 0.1, "err_TemplateNotFound": 0.01,
-    "form_split": 0.05, "form_choice_mod_first": 0.05, "form_choice_src_first": 0.05, "form_list_empty_first": 0.05,
+    "form_split": 0.05, "form_override": 0.05, "form_choice_mod_first": 0.05, "form_choice_src_first": 0.05, "form_list_empty_first": 0.05,
     "shared_loader": 0.08, "rebuild_stale_sources": 0.04, "rebuild_other_options": 0.04, "flag_sandbox": 0.02, "flag_autoescape": 0.02, "flag_i18n": 0.02, "broken_template": 0.005,
 }
 
